@@ -44,7 +44,10 @@ def violation_event(v, src: str) -> Dict[str, Any]:
         pm = seg.pos_marker
         s0, s1 = pm.source_slice.start, pm.source_slice.stop
         first = next((r for r in seg.raw_segments if not r.is_meta and r.raw), None)
-        if first is not None and not seg.is_meta and seg.raw and pm.is_literal() and s0 < s1 and first.pos_marker.is_literal():
+        # "code that exists in the source": literal, non-empty, and as long as its source span (a token glued
+        # together from two loop iterations or around a tag that renders nothing is not in the source as such)
+        if (first is not None and not seg.is_meta and seg.raw and pm.is_literal() and s0 < s1
+                and first.pos_marker.is_literal() and len(seg.raw) == s1 - s0):
             ev["anchor"] = True
             ev["as0"] = int(s0)
             ev["texteq"] = bool(src[s0:s1] == seg.raw)
